@@ -157,6 +157,10 @@ func runC17(c *Ctx) bool {
 		emit("size-extreme", "- a\n  - b\n"+long+"\n- c\n")
 		emit("size-extreme", "- a\n  - b\n  "+long)
 		emit("size-extreme", "\n\n"+long+"\n  - kid\n")
+		// the same boundary with CRLF line ends (the carriage return counts for the scanner's limit)
+		emit("size-extreme", long+"\r\n")
+		emit("size-extreme", "- a\r\n  - b\r\n"+long+"\r\n- c\r\n")
+		emit("size-extreme", long[:len(long)-1]+"\r\n")
 	}
 	// nesting deeper than 1024 levels (every line far below the scanner limit)
 	for _, depth := range []int{1030, 1100}[:c.Pick(1, 2)] {
